@@ -120,7 +120,7 @@ type expr4Expression struct {
 	X expr4Expr `@@`
 }
 
-var expr4Parser = participle.MustBuild[expr4Expression](participle.ParseTypeWith(expr4ParseExprAny))
+var expr4Parser = mustBuild[expr4Expression](participle.ParseTypeWith(expr4ParseExprAny))
 
 func init() {
 	f := Register("expr4", expr4Parser, nil,
